@@ -291,7 +291,7 @@ def run_synthetic(case, ctx):
         per_m = math.ceil(spacing / 12.5e9)
         nb_wl = G.pick(rng, [1, 1, 2, 3, 4])
         kind = G.pick(rng, ['free', 'free', 'free', 'fixed-nm', 'fixed-m', 'fixed-n', 'multi', 'multi-free-tail',
-                            'insufficient'])
+                            'insufficient', 'multi-one-infeasible'])
         need = nb_wl * per_m
         cn = rng.randint(model.lo, model.hi)
         if rng.random() < 0.6:
@@ -312,6 +312,12 @@ def run_synthetic(case, ctx):
             slots = [(cn, per_m)] + [(None, per_m) if rng.random() < 0.5 else
                                      (min(cn + 2 * per_m * (j + 1), model.index[-1]), per_m)
                                      for j in range(nb_wl - 1)]
+        elif kind == 'multi-one-infeasible':
+            # several fixed slots, the first one large enough for the whole demand, another one (smaller, so examined
+            # later) placed on spectrum that is already taken when there is any: used as given, or the request blocked
+            taken = sorted(set().union(*[model.occupied[2 * k] for k in fwd]))
+            n2 = G.pick(rng, taken) if taken else min(cn + 3 * need, model.hi)
+            slots = [(cn, need + per_m), (n2, per_m)]
         elif kind == 'multi-free-tail':
             slots = [(cn, G.pick(rng, [per_m, need, need + per_m, 2 * need])), (None, None)]
         else:
